@@ -185,11 +185,32 @@ func originGate(p *ana.Prog, r *ana.Result, fn *ssa.Function, respRoot, reqRoot 
 		}
 		return trues > 0
 	}
+	// ... or the flag is the very condition under which the request is made an interleaved one:
+	// `flag := <cond>; if flag { req.ReceiveTime = ... }` - the store sits at the head of the arm
+	// taken when the flag holds
+	condFlags := map[ssa.Value]bool{}
+	ana.IfEdges(fn, func(iff *ssa.If, b *ssa.BasicBlock) {
+		s := b.Succs[0]
+		if len(s.Preds) != 1 {
+			return
+		}
+		for _, sb := range storeBlocks {
+			if sb == s {
+				condFlags[iff.Cond] = true
+			}
+		}
+	})
 	for e := range gInter.Accept {
 		okDom := false
 		ana.IfEdges(fn, func(iff *ssa.If, b *ssa.BasicBlock) {
 			for si, val := range []bool{true, false} {
 				for _, a := range ana.Implied(iff.Cond, val) {
+					if a.Holds && condFlags[a.V] {
+						s := b.Succs[si]
+						if (len(s.Preds) == 1 && s.Dominates(e.From)) || b == e.From {
+							okDom = true
+						}
+					}
 					if ph, ok := a.V.(*ssa.Phi); ok && a.Holds && isReqFlag(ph) {
 						s := b.Succs[si]
 						if (len(s.Preds) == 1 && s.Dominates(e.From)) || b == e.From {
@@ -405,10 +426,30 @@ func c05Client(p *ana.Prog, r *ana.Result, name string, scion bool) {
 
 func c05ScionGates(p *ana.Prog, r *ana.Result, fn *ssa.Function) []gateSpec {
 	var gs []gateSpec
-	isDecodedElem := func(v ssa.Value) bool {
+	var isDecodedElemN func(v ssa.Value, d int) bool
+	isDecodedElemN = func(v ssa.Value, d int) bool {
 		pth := ana.AccessPath(v)
-		return strings.HasPrefix(pth, "decoded[") || strings.HasPrefix(pth, "*decoded[")
+		if strings.HasPrefix(pth, "decoded[") || strings.HasPrefix(pth, "*decoded[") {
+			return true
+		}
+		// the element held in a local that is the zero layer type when there is none (a helper's
+		// (layer, ok) result): equal to SCION/UDP or SCMP only if it is the element
+		if ph, ok := v.(*ssa.Phi); ok && d < 3 {
+			n := 0
+			for _, e := range ph.Edges {
+				switch {
+				case isGlobalLoad(e, "github.com/google/gopacket", "LayerTypeZero"):
+				case isDecodedElemN(e, d+1):
+					n++
+				default:
+					return false
+				}
+			}
+			return n > 0
+		}
+		return false
 	}
+	isDecodedElem := func(v ssa.Value) bool { return isDecodedElemN(v, 0) }
 	layerCmp := func(c ana.Cmp, layer string) bool {
 		if c.Op != token.EQL && c.Op != token.NEQ {
 			return false
